@@ -1,1 +1,295 @@
-/-! STUB — property C07 is not built yet. -/
+import Martian.Lemmas.Shutdown
+import Martian.Generated.Shutdown
+/-!
+C07 — Shutdown completes in-flight exchanges, refuses new ones and closes everything.
+
+All theorems are about `Martian.Shutdown.step` (Model/Shutdown.lean), the interleaving model of
+`Serve` / `handleLoop` / `handle` / `readRequest` / `Close` of `/repo/proxy.go`, and quantify over
+ALL schedules (`Reachable s := ∃ sched, run init sched = some s`; a schedule is any list of labels,
+so any number of connections, any placement of `Close`, any release order of parked exchanges).
+
+Reading of the statement (DESIGN §7): "marked connection-close" = marked whenever shutdown was
+observable at the close decision; a response decided earlier is complete and followed by the close.
+
+Finding F07 (open): `conns.Add(1)` runs inside the spawned goroutine, so the clause "shutdown returns
+only after every accepted connection has been closed" is FALSE for the faithful model
+(`close_returns_after_all_handlers_done_counterexample`); what holds is the same for all *counted*
+connections (`close_returns_after_all_counted_handlers_done`) and the full clause under the hypothesis
+that no accepted connection is still uncounted when `Close` returns (`…_partial`).
+-/
+namespace Martian.Props.C07
+open Martian.Shutdown
+
+/-! ### tie: the skeleton of proxy.go the model transcribes (regenerated from /repo on every check) -/
+
+/-- `conns.Add` is called in `handleLoop` only (inside the spawned goroutine — F07); `Close` signals
+first and then waits under `connsMu`; `handleLoop` counts itself, defers `conns.Done` then
+`conn.Close` (so the connection is closed BEFORE the handler is un-counted) and checks `Closing()`
+before its serving loop; `readRequest` selects on the closing signal; `Serve` checks `Closing()` at
+the loop top, before `Accept`, and spawns the handler with a `go` statement afterwards. -/
+theorem facts_shutdown_skeleton :
+    Generated.Shutdown.addSites = ["handleLoop"] ∧
+    Generated.Shutdown.closeCalls = ["close", "p.connsMu.Lock", "p.conns.Wait", "p.connsMu.Unlock"] ∧
+    Generated.Shutdown.handleLoopPrologue = ["p.connsMu.Lock", "p.conns.Add", "p.connsMu.Unlock", "p.Closing"] ∧
+    Generated.Shutdown.handleLoopDefers = ["p.conns.Done", "conn.Close"] ∧
+    Generated.Shutdown.readRequestSelectArms = ["<-errc", "<-reqc", "<-p.closing"] ∧
+    Generated.Shutdown.serveSkeleton = ["p.Closing", "l.Accept", "go p.handleLoop"] := by
+  decide
+
+/-! ### every started exchange is completed before its connection is closed -/
+
+/-- In every reachable state every handler has completed all the exchanges it started, except
+possibly the one it is in the middle of. -/
+theorem exchange_accounting {s : Sys} (hr : Reachable s) :
+    ∀ h ∈ s.hs, h.started = h.completed + (if h.pc.inExchange then 1 else 0) ∧ h.marks.length = h.completed :=
+  fun h hm => ⟨((reachable_good hr).hok h hm).exch, ((reachable_good hr).hok h hm).mlen⟩
+
+/-- Safety form of "receives its complete response before its connection is closed": whenever the
+handler of connection `k` closes the connection, every exchange whose request modifier had started
+has had its response written completely. -/
+theorem started_exchange_completes {s s' : Sys} {k : Nat} {h : Handler} (hr : Reachable s)
+    (hk : s.hs[k]? = some h) (hs : step s (.h k .closeConn) = some s') :
+    h.completed = h.started ∧ h.pc.inExchange = false := by
+  have ok := (reachable_good hr).hok h (List.mem_of_getElem? hk)
+  simp only [step, hk] at hs
+  have hpc : h.pc = .closingConn := by
+    cases hp : h.pc <;> simp [hstep, hp] at hs
+    rfl
+  have := ok.exch
+  simp [hpc, Pc.inExchange] at this ⊢
+  omega
+
+/-- Once the handler is on its way out (closing, closed, done) nothing it started is unfinished. -/
+theorem closed_connection_has_no_unfinished_exchange {s : Sys} (hr : Reachable s) :
+    ∀ h ∈ s.hs, h.pc.winding = true → h.completed = h.started := by
+  intro h hm hw
+  have := ((reachable_good hr).hok h hm).exch
+  cases hp : h.pc <;> simp_all [Pc.winding, Pc.inExchange]
+
+/-! ### marked connection-close iff shutdown was observable at the close decision -/
+
+/-- Every completed response is marked `Connection: close` exactly when the request or the
+response asked for it or shutdown was observable (`Closing()` true) at the close decision; in
+particular every response decided while shutdown was observable is marked. -/
+theorem marked_close_iff_closing_observable_at_decision {s : Sys} (hr : Reachable s) :
+    ∀ h ∈ s.hs, ∀ m ∈ h.marks, m.2.2 = (m.2.1 || m.1) :=
+  fun h hm => ((reachable_good hr).hok h hm).mark
+
+/-- The pending decision of an exchange obeys the same rule, and `obsAtDecision` is only ever true
+if shutdown has really been signalled. -/
+theorem pending_decision_rule {s : Sys} (hr : Reachable s) :
+    ∀ h ∈ s.hs, (∀ b, (h.pc = .decided b ∨ h.pc = .writing b) → b = (h.reqClose || h.resClose || h.obsAtDecision)) ∧
+      (h.obsAtDecision = true → s.closing = true) :=
+  fun h hm => ⟨((reachable_good hr).hok h hm).dec, ((reachable_good hr).hok h hm).obs⟩
+
+/-- A response marked close is the last one on its connection: the handler is closing the
+connection and never reads another request. -/
+theorem marked_response_is_followed_by_close {s : Sys} (hr : Reachable s) :
+    ∀ h ∈ s.hs, (anyMarked h.marks = true → h.pc.winding = true) ∧ h.servedAfterMark = false :=
+  fun h hm => ⟨((reachable_good hr).hok h hm).afterMark, ((reachable_good hr).hok h hm).sam⟩
+
+/-- Placement form, for shutdown requested inside the request modifier, during the round trip or
+inside the response modifier (any point of a started exchange before its close decision): if
+shutdown is observable in `s` while connection `k` is at such a point, then on EVERY continuation
+(any schedule) in which that exchange's response gets completely written, it is marked
+`Connection: close` — and by `marked_response_is_followed_by_close` the connection is then closed. -/
+theorem shutdown_before_decision_marks_response {s s' : Sys} {k : Nat} {h h' : Handler} {sched : List Label}
+    (hr : Reachable s) (hc : s.closing = true) (hk : s.hs[k]? = some h) (hp : h.pc.beforeDecision = true)
+    (hrun : run s sched = some s') (hk' : s'.hs[k]? = some h') (hdone : h.completed < h'.completed) :
+    ∃ o a, h'.marks[h.completed]? = some (o, a, true) := by
+  have hm := ((reachable_good hr).hok h (List.mem_of_getElem? hk)).mlen
+  obtain ⟨h2, hk2, ht⟩ := run_track hc hk (Or.inl ⟨rfl, hm, Or.inl hp⟩) hrun
+  rw [hk'] at hk2; cases hk2
+  rcases ht with ⟨h1, _⟩ | ⟨_, h3⟩
+  · omega
+  · exact h3
+
+/-- Shutdown requested while the connection is idle or in the middle of a request head: the handler
+can close the connection at once (`closingSeen` is enabled), without any response. If instead the
+`select` of `readRequest` takes a request that has arrived, that exchange is started with shutdown
+observable and `shutdown_before_decision_marks_response` applies to it. -/
+theorem shutdown_while_reading_closes {s : Sys} {k : Nat} {h : Handler}
+    (hc : s.closing = true) (hk : s.hs[k]? = some h) (hp : h.pc.readable = true) :
+    ∃ s' h', step s (.h k .closingSeen) = some s' ∧ s'.hs[k]? = some h' ∧ h'.pc = .closingConn ∧
+      h'.started = h.started ∧ h'.completed = h.completed := by
+  have hlt : k < s.hs.length := by
+    rcases List.getElem?_eq_some_iff.mp hk with ⟨hlt, _⟩; exact hlt
+  have hh : hstep s.closing s.cpc.holdsMu (decide (s.cpc = .returned)) h .closingSeen =
+      some { h with pc := .closingConn } := by
+    simp [hstep, hp, hc]
+  refine ⟨{ s with hs := s.hs.set k { h with pc := .closingConn }, wg := HL.wgAfter s.wg .closingSeen },
+    { h with pc := .closingConn }, ?_, ?_, rfl, rfl, rfl⟩
+  · simp only [step, hk]
+    rw [hh]
+    simp
+  · show (s.hs.set k _)[k]? = _
+    simp [List.getElem?_set, hlt]
+
+/-! ### no request modifier starts after `Close` has returned (holds at full strength, F07 notwithstanding) -/
+
+theorem no_reqmod_after_close_returns {s : Sys} (hr : Reachable s) :
+    ∀ h ∈ s.hs, h.startedAfterReturn = false :=
+  fun h hm => ((reachable_good hr).hok h hm).sar
+
+/-- Enabledness form: once `Close` has returned, `reqmodStart` is disabled for every connection —
+also for connections that were not yet counted when it returned, and for later accepts. -/
+theorem reqmod_disabled_after_close_returns {s : Sys} (hr : Reachable s) (hc : s.cpc = .returned) (k : Nat) :
+    step s (.h k .reqmodStart) = none := by
+  simp only [step]
+  cases hk : s.hs[k]? with
+  | none => rfl
+  | some h =>
+    have := ((reachable_good hr).hok h (List.mem_of_getElem? hk)).ret hc
+    have hne : h.pc ≠ .haveReq := by intro e; simp [e, Pc.afterClosing] at this
+    simp [hstep, hne]
+
+/-! ### `Close` returns only after every COUNTED handler is done (what holds given F07) -/
+
+theorem close_returns_after_all_counted_handlers_done {s s' : Sys} (hr : Reachable s)
+    (hs : step s .ret = some s') :
+    ∀ h ∈ s'.hs, h.pc = .done ∨ h.pc = .accepted ∨ h.pc = .spawned := by
+  simp only [step] at hs
+  split at hs <;> cases hs
+  rename_i hc
+  intro h hm
+  have := ((reachable_good hr).hok h hm).zero hc
+  cases hp : h.pc <;> simp_all [Pc.counted]
+
+/-- After `Close` has returned no handler is ever again inside the serving loop. -/
+theorem after_close_returned_nobody_serves {s : Sys} (hr : Reachable s) (hc : s.cpc = .returned) :
+    ∀ h ∈ s.hs, h.pc.afterClosing = true :=
+  fun h hm => ((reachable_good hr).hok h hm).ret hc
+
+/-- The schedule of finding F07. -/
+def f07Schedule : List Label :=
+  [.serveCheck, .accept, .h 0 .spawn, .closeCall, .closeChan, .lock, .waitZero, .ret]
+
+/-- F07 (test on a concrete witness, `decide`): at full strength the clause "shutdown returns only
+after every accepted connection has been closed and its handler has finished" is false for the
+model of the code as it is: after `accept; spawn; closeChan; lock; waitZero; ret` the accepted
+connection 0 is neither closed nor counted, and it is closed only afterwards. -/
+theorem close_returns_after_all_handlers_done_counterexample :
+    ∃ s, run init f07Schedule = some s ∧ s.cpc = .returned ∧ s.returnedEarly = true ∧
+      (∃ h, s.hs[0]? = some h ∧ h.pc = .spawned) ∧
+      ∃ s', run s [.h 0 .add, .h 0 .checkClosing, .h 0 .closeConn, .h 0 .finish] = some s' ∧
+        ∃ h', s'.hs[0]? = some h' ∧ h'.pc = .done := by
+  decide
+
+/-- The clause at full strength, under the hypothesis that excludes exactly F07: no accepted
+connection is still waiting for its `conns.Add(1)` when `Close` returns. -/
+theorem close_returns_after_all_handlers_done_partial {s s' : Sys} (hr : Reachable s)
+    (hs : step s .ret = some s')
+    (hcounted : ∀ h ∈ s.hs, h.pc ≠ .accepted ∧ h.pc ≠ .spawned) :
+    (∀ h ∈ s'.hs, h.pc = .done) ∧ s'.returnedEarly = false := by
+  have hall := close_returns_after_all_counted_handlers_done hr hs
+  simp only [step] at hs
+  split at hs <;> cases hs
+  have hd : ∀ h ∈ s.hs, h.pc = .done := by
+    intro h hm
+    rcases hall h hm with h1 | h1 | h1
+    · exact h1
+    · exact absurd h1 (hcounted h hm).1
+    · exact absurd h1 (hcounted h hm).2
+  refine ⟨hd, ?_⟩
+  show (s.hs.any fun h => h.pc != .done) = false
+  simp only [List.any_eq_false]
+  intro h hm
+  simp [hd h hm]
+
+/-! ### connections accepted after shutdown began are closed without being served -/
+
+theorem late_accepts_not_served {s : Sys} (hr : Reachable s) :
+    ∀ h ∈ s.hs, h.late = true →
+      h.entered = false ∧ h.started = 0 ∧ h.completed = 0 ∧ h.pc.afterClosing = true := by
+  intro h hm hl
+  have ok := (reachable_good hr).hok h hm
+  have he := (ok.late hl).2
+  have := ok.ent he
+  have hx := ok.exch
+  refine ⟨he, this.2, ?_, this.1⟩
+  omega
+
+/-! ### concurrent accept and shutdown never deadlock -/
+
+/-- Progress: in every reachable state in which `Close` has been called and shutdown is not yet
+complete (`Close` returned and every accepted connection's handler done), some move of the proxy
+itself is enabled — no client has to do anything, parked gates are assumed to be released
+(`reqmodEnd`/`rtEnd`/`resmodEnd`/`writeEnd` count as moves), and this holds with any number of
+connections accepted before, during and after the call. -/
+theorem no_deadlock {s : Sys} (hr : Reachable s) (hc : s.cpc ≠ .idle) (hnf : ¬ Final s) :
+    ∃ l, l.internal = true ∧ (step s l).isSome = true :=
+  progress hr hc hnf
+
+/-- Every move of the proxy itself strictly decreases `measure`: there is no infinite run without
+client moves (no livelock), from ANY state. -/
+theorem proxy_moves_terminate {s s' : Sys} {l : Label} (hs : step s l = some s') (hi : l.internal = true) :
+    measure s' < measure s :=
+  internal_step_decreases hs hi
+
+/-- Together: from every reachable state after `Close` was called, proxy moves alone reach — within
+`measure s` steps — a state in which `Close` has returned and every accepted connection is closed
+and its handler finished; and since every proxy move decreases the measure, every maximal run of
+proxy moves ends there (`no_deadlock` says it cannot stop earlier). -/
+theorem shutdown_completes {s : Sys} (hr : Reachable s) (hc : s.cpc ≠ .idle) :
+    ∃ sched s', (∀ l ∈ sched, l.internal = true) ∧ sched.length ≤ measure s ∧
+      run s sched = some s' ∧ Final s' := by
+  generalize hn : measure s = n
+  induction n using Nat.strongRecOn generalizing s with
+  | _ n ih =>
+    by_cases hf : Final s
+    · exact ⟨[], s, by simp, by simp, rfl, hf⟩
+    · obtain ⟨l, hi, hen⟩ := progress hr hc hf
+      cases hs : step s l with
+      | none => rw [hs] at hen; simp at hen
+      | some s1 =>
+        have hlt := internal_step_decreases hs hi
+        obtain ⟨sched, s', h1, h2, h3, h4⟩ :=
+          ih (measure s1) (by omega) (reachable_step hr hs) (step_cpc_ne_idle hs hc) rfl
+        refine ⟨l :: sched, s', ?_, ?_, ?_, h4⟩
+        · intro x hx
+          rcases List.mem_cons.mp hx with e | e
+          · subst e; exact hi
+          · exact h1 x e
+        · simp only [List.length_cons]; omega
+        · simp [run, hs, h3]
+
+/-! ### non-vacuity: the hypotheses above are satisfiable, the parked states are reachable -/
+
+/-- A run in which `Close` is called while connection 0 is parked inside its request modifier and
+connection 1 is idle; both end closed, the in-flight response is complete and marked, `Close` returns
+after both handlers are done (test on a concrete schedule). -/
+example : ∃ s, run init
+    [.serveCheck, .accept, .h 0 .spawn, .serveCheck, .accept, .h 1 .spawn, .serveCheck,
+     .h 0 .add, .h 0 .checkClosing, .h 1 .add, .h 1 .checkClosing,
+     .h 0 (.gotReq false), .h 0 .reqmodStart,
+     .closeCall, .closeChan, .lock,
+     .h 1 .closingSeen, .h 1 .closeConn, .h 1 .finish,
+     .h 0 .reqmodEnd, .h 0 .rtStart, .h 0 (.rtEnd false), .h 0 .resmodStart, .h 0 .resmodEnd, .h 0 .decide,
+     .h 0 .writeStart, .h 0 .writeEnd, .h 0 .closeConn, .h 0 .finish,
+     .waitZero, .ret] = some s ∧ Final s ∧ s.returnedEarly = false ∧
+     (∃ h, s.hs[0]? = some h ∧ h.marks = [(true, false, true)] ∧ h.started = 1 ∧ h.completed = 1) ∧
+     (∃ h, s.hs[1]? = some h ∧ h.started = 0) := by
+  refine ⟨_, rfl, ⟨rfl, ?_⟩, rfl, ⟨_, rfl, rfl, rfl, rfl⟩, ⟨_, rfl, rfl⟩⟩
+  decide
+
+/-- Shutdown that arrives while the response is being written: the response is complete, NOT marked
+(the decision was taken before), and the connection is closed right after it. -/
+example : ∃ s, run init
+    [.serveCheck, .accept, .h 0 .spawn, .h 0 .add, .h 0 .checkClosing, .h 0 (.gotReq false), .h 0 .reqmodStart,
+     .h 0 .reqmodEnd, .h 0 .rtStart, .h 0 (.rtEnd false), .h 0 .resmodStart, .h 0 .resmodEnd, .h 0 .decide,
+     .h 0 .writeStart, .closeCall, .closeChan, .h 0 .writeEnd, .h 0 .closingSeen, .h 0 .closeConn, .h 0 .finish,
+     .lock, .waitZero, .ret] = some s ∧
+     (∃ h, s.hs[0]? = some h ∧ h.marks = [(false, false, false)] ∧ h.pc = .done) ∧ s.returnedEarly = false :=
+  ⟨_, rfl, ⟨_, rfl, rfl, rfl⟩, rfl⟩
+
+/-- The hypothesis of `close_returns_after_all_handlers_done_partial` is satisfiable, and a late
+accept exists: a connection accepted after `closeChan` (Serve was already blocked in `Accept`). -/
+example : ∃ s s', run init
+    [.serveCheck, .closeCall, .closeChan, .accept, .h 0 .spawn, .serveCheck, .h 0 .add, .h 0 .checkClosing,
+     .h 0 .closeConn, .h 0 .finish, .lock, .waitZero] = some s ∧
+     (∀ h ∈ s.hs, h.pc ≠ .accepted ∧ h.pc ≠ .spawned) ∧ step s .ret = some s' ∧ s.acc = .stopped ∧
+     (∃ h, s.hs[0]? = some h ∧ h.late = true ∧ h.pc = .done) := by
+  refine ⟨_, _, rfl, ?_, rfl, rfl, ⟨_, rfl, rfl, rfl⟩⟩
+  decide
+
+end Martian.Props.C07
